@@ -42,6 +42,7 @@ include!("../coll_inc/split.rs");
 include!("../coll_inc/mapvec.rs");
 include!("../coll_inc/failing.rs");
 include!("../coll_inc/misc.rs");
+include!("../coll_inc/mutnum.rs");
 
 fn main() {
     let args: Vec<String> = std::env::args().collect();
@@ -88,6 +89,10 @@ fn main() {
         }
         print!("{}", ctx.out);
         ctx.out.clear();
+    }
+    if profile == "mutgrow" || profile == "std" {
+        // `Copy` elements: every growth-capable operation across chunk boundaries (oracle only)
+        run_mutnum(&mut ctx, if profile == "mutgrow" { traces * 2 } else { traces / 4 + 30 });
     }
     ctx.summary();
     print!("{}", ctx.out);
